@@ -71,6 +71,10 @@ def extract_nested_variables(
 
             component_subs[component.name()][sp.Symbol(var.name())] = sp.Symbol(name)
             all_subs[sp.Symbol(var.qname())] = sp.Symbol(name)
+            if var.is_state():
+                # A reference dot(x) to the derivative of a state is written
+                # by myokit's sympy writer as a symbol named "dot(<qname>)"
+                all_subs[sp.Symbol(f"dot({var.qname()})")] = sp.Symbol(f"d{name}_dt")
             all_subs, component_subs_ = f(var, all_subs, component_subs)
         component_subs.update(component_subs_)
         return all_subs, component_subs
